@@ -183,6 +183,20 @@ def check_message(case):
                                  f'{[e.get("type") for e in after["encrypted_payloads"]]} for {[p["t"] for p in m["payloads"]]}'))
     except Exception as ex:
         fails.append(Failure(f'to_bytes-twice-raises:{type(ex).__name__}', f'second to_bytes / dump raised {type(ex).__name__}: {ex}'))
+    # (1c) the protected chain, too, must end exactly where the data ends: the same plaintext announced as empty (SK says "next
+    # payload: none") is not an empty message
+    if enc and m['payloads']:
+        from ..ref import ikekeys as K_
+        first_inner, chain = W.enc_chain(m['payloads'])
+        if first_inner and chain:
+            lying = K_.protect(W.enc_header(mm, 46, 0), 0, chain, sk_e, sk_a, integ, iv)
+            try:
+                pm = A.Message.parse(lying, crypto=c06.crypto_for(enc['ks']))
+                fails.append(Failure('inner-chain-not-at-end-accepted', f'an SK payload that announces no inner payload but carries '
+                                                                        f'{len(chain)} octets of them was accepted (as '
+                                                                        f'{len(pm.encrypted_payloads)} payloads)'))
+            except A.IkeSaError:
+                pass
     # (2) parsing the reference bytes
     try:
         parsed = A.Message.parse(ref, crypto=c06.crypto_for(enc['ks']) if enc else None)
